@@ -707,8 +707,8 @@ func (s *engaSim) label(vk *vkCtx, prefix string) {
 	if st.restoredStarts > 0 {
 		vk.Label(prefix + "restart_from_disk")
 	}
-	if st.zeroPersist > 0 {
-		vk.Label(prefix + "restored_attest_rewrote_disk")
+	if st.doubleCrashInRound > 0 {
+		vk.Label(prefix + "double_crash_in_round")
 	}
 	if st.partitions > 0 && st.heals > 0 {
 		vk.Label(prefix + "partition_then_heal")
@@ -752,15 +752,15 @@ func (s *engaSim) label(vk *vkCtx, prefix string) {
 	if st.holds > 0 {
 		vk.Label(prefix + "class_delay")
 	}
-	if st.amnesiaExcluded > 0 {
-		vk.Label(prefix + "amnesia_crash_excluded")
-	}
+
 	if st.disconnects > 0 {
 		vk.Label(prefix + "disconnect_action")
 	}
 	vk.Add(prefix+"events", int64(st.events))
 	vk.Add(prefix+"ensure_actions", int64(len(s.ensures)))
 	vk.Add(prefix+"crashes", int64(st.crashes))
+	vk.Add(prefix+"double_crashes_in_round", int64(st.doubleCrashInRound))
+	vk.Add(prefix+"restored_starts", int64(st.restoredStarts))
 }
 
 // fingerprint renders the case for distinctness: population + the sequence of commits and coarse counters.
